@@ -1,6 +1,7 @@
 import EupsModel.Lemmas.SetupFrame
 import EupsModel.Lemmas.SetupKeep
 import EupsModel.Lemmas.SetupInverse
+import EupsModel.Lemmas.SetupLines
 /-! C04 — setup changes only what it was asked to (keep, just, max-depth, bystanders).
 Model: `EupsModel/Model/Setup.lean`; lemmas: `EupsModel/Lemmas/SetupInv.lean`, `SetupFrame.lean`, `SetupKeep.lean`.
 
@@ -106,12 +107,15 @@ private theorem selectVRO_keep (inexact : Bool) (tags : List Str) : VroEnt.keep 
   have hd : ∀ l : List VroEnt, VroEnt.keep ∈ dedup [] (VroEnt.keep :: l) := by intro l; simp [dedup]
   cases inexact <;> cases tags <;> simp [dedup, List.mem_filter]
 
-/-- With `--keep`, when the requested product is not set up beforehand, every product that was set up retains its
-version (D21 is the excluded class: the requested product already set up, in which case it is unwound together with
-its dependencies before `keep` is consulted).  Every database, every other flag, every fuel. -/
+/-- With `--keep`, every product `m` other than the requested one that was set up keeps its version — unless the
+requested product is itself set up beforehand (in any declared version `sd`, the same one included) **and** a dependency
+line of `sd`'s own table leads to `m` (`ReachFrom db sd m`): that is exactly D21's class (`sd` is unwound together with
+what its table names before `keep` is consulted; witness `C04_keep_drop_witness`).  Every database (name cycles
+included), every other flag, every fuel. -/
 theorem C04_keep_partial (db : Db) (fuel : Nat) (r : Request) (hkeep : r.keep = true) (e : Setup.Env) (s' : St)
-    (hdecl : AllDeclared db e) (hnot : e.rec? r.name = none)
-    (h : runSetup db fuel r e = .ok s') : ∀ m v, e.rec? m = some v → s'.env.rec? m = some v := by
+    (hdecl : AllDeclared db e) (h : runSetup db fuel r e = .ok s') :
+    ∀ m v, e.rec? m = some v → m ≠ r.name →
+      (∀ sd, setupProd db e r.name = some sd → ¬ ReachFrom db sd m) → s'.env.rec? m = some v := by
   unfold runSetup at h
   cases fuel with
   | zero => simp [setup_zero] at h
@@ -128,29 +132,34 @@ theorem C04_keep_partial (db : Db) (fuel : Nat) (r : Request) (hkeep : r.keep = 
       have hpd : pickDecl (r.cfg db).db (St.init e).cache d = d := rfl
       rw [hpd] at h
       generalize hcache : ((St.init e).afterResolve (r.cfg db) 0 r.vro r.name r.version none).cache = c0
-      -- the registered state mirrors every record
       have hreg : register (r.cfg db) 0 d reason ((St.init e).afterResolve (r.cfg db) 0 r.vro r.name r.version none) =
           ⟨e, [], [], aset (alreadyOfEnv db e) d.name (d, reason), c0⟩ := by
         rw [← hcache]; simp [register, St.init, St.afterResolve, Request.cfg]
       rw [hreg] at h
-      have hmir : Mirror ⟨e, [], [], aset (alreadyOfEnv db e) d.name (d, reason), c0⟩ := by
-        intro m v hmv
-        have hne : m ≠ d.name := by intro e'; rw [e', hname, hnot] at hmv; cases hmv
-        obtain ⟨d', hg, hv⟩ := aget_alreadyOfEnv db e.recs hdecl m v hmv
-        refine ⟨d', none, ?_, hv⟩
-        show aget (aset (alreadyOfEnv db e) d.name (d, reason)) m = _
-        rw [aget_aset_other _ _ _ _ hne]; exact hg
       have hal : AlreadyOK (r.cfg db).db (aset (alreadyOfEnv db e) d.name (d, reason)) :=
         alreadyOK_aset _ _ (alreadyOfEnv_ok db e) d reason hc
       have hvro : VroEnt.keep ∈ r.vro := by
         unfold Request.vro; rw [hkeep]; exact selectVRO_keep _ _
-      have hpost := install_keep (r.cfg db) (setup (r.cfg db) k) (setup_alOK _ k) (setup_keepSpec _ k) 0 false r.vro hvro
-        d reason hc ⟨e, [], [], aset (alreadyOfEnv db e) d.name (d, reason), c0⟩ hal hmir (by
-          intro sd hsp
-          obtain ⟨_, _, hr⟩ := setupProd_some _ _ _ _ hsp
-          rw [hname, hnot] at hr; cases hr)
-      rw [h] at hpost
-      exact hpost.2.1
+      intro m v hmv hne hreach
+      refine install_keep_top (r.cfg db) k false r.vro hvro d reason hc
+        ⟨e, [], [], aset (alreadyOfEnv db e) d.name (d, reason), c0⟩ s' hal ?_ h m v (by rw [hname]; exact hne) hmv
+        (by rw [hname]; exact hreach)
+      intro m' v' hne' hmv'
+      obtain ⟨d', hg, hv⟩ := aget_alreadyOfEnv db e.recs hdecl m' v' hmv'
+      refine ⟨d', none, ?_, hv⟩
+      show aget (aset (alreadyOfEnv db e) d.name (d, reason)) m' = _
+      rw [aget_aset_other _ _ _ _ hne']; exact hg
+
+/-- the form of the earlier rounds — the requested product is not set up beforehand — is a corollary -/
+theorem C04_keep_fresh (db : Db) (fuel : Nat) (r : Request) (hkeep : r.keep = true) (e : Setup.Env) (s' : St)
+    (hdecl : AllDeclared db e) (hnot : e.rec? r.name = none)
+    (h : runSetup db fuel r e = .ok s') : ∀ m v, e.rec? m = some v → s'.env.rec? m = some v := by
+  intro m v hmv
+  refine C04_keep_partial db fuel r hkeep e s' hdecl h m v hmv ?_ ?_
+  · intro e'; rw [e', hnot] at hmv; cases hmv
+  · intro sd hsp
+    obtain ⟨_, _, hr⟩ := setupProd_some _ _ _ _ hsp
+    rw [hnot] at hr; cases hr
 
 /-! ## D21: `--keep` does not protect the dependencies of the requested product's previously set-up version -/
 
@@ -203,7 +212,7 @@ theorem C04_narrow_frame_fails :
           ⟨[(nP, v2), (nX, v1)], [(nP, .own (nP, v2) []), (nX, .own (nX, v1) [])], [], []⟩, ?_, ?_, ?_, ?_, ?_, ?_⟩ <;>
     decide +kernel
 
-/-- the hypotheses of `C04_keep_partial` are satisfiable with something to keep: `c 1` is set up, `a` is not -/
+/-- the hypotheses of `C04_keep_fresh` are satisfiable with something to keep: `c 1` is set up, `a` is not -/
 example : AllDeclared dbKeep ⟨[(nC, v1)], [(nC, .own (nC, v1) [])], [], []⟩ ∧
     (⟨[(nC, v1)], [(nC, .own (nC, v1) [])], [], []⟩ : Setup.Env).rec? nA = none := by
   constructor
@@ -211,6 +220,30 @@ example : AllDeclared dbKeep ⟨[(nC, v1)], [(nC, .own (nC, v1) [])], [], []⟩ 
     simp at h; obtain ⟨rfl, rfl⟩ := h
     exact ⟨⟨nC, v1, [3], []⟩, by decide +kernel⟩
   · decide +kernel
+
+/-- … and with the requested product set up beforehand: in D21's own history (`a 1`, `c 1` set up; `setup --keep a 3`)
+a bystander `x` that `a 1`'s table does not name satisfies the hypothesis of `C04_keep_partial`, `c` does not -/
+example : (∀ sd, setupProd dbKeep ⟨[(nC, v1), (nA, v1)], [], [], []⟩ nA = some sd → ¬ ReachFrom dbKeep sd [120]) ∧
+    (∃ sd, setupProd dbKeep ⟨[(nC, v1), (nA, v1)], [], [], []⟩ nA = some sd ∧ ReachFrom dbKeep sd nC) := by
+  have hsp : setupProd dbKeep ⟨[(nC, v1), (nA, v1)], [], [], []⟩ nA =
+      some ⟨nA, v1, [1], [(.always, .dep nC false false none none [] false)]⟩ := by decide +kernel
+  constructor
+  · intro sd h
+    rw [hsp] at h; cases h
+    intro ⟨g, n, o, j, v, x, t, kl, k, hg, hw⟩
+    simp at hg
+    obtain ⟨_, rfl, _⟩ := hg
+    have key : ∀ k n, Within dbKeep nC k n → n = nC := by
+      intro k n hw
+      induction hw with
+      | root => rfl
+      | step _ hd hn hg ih =>
+        subst ih
+        simp [dbKeep] at hd
+        rcases hd with rfl | rfl | rfl <;> simp at hg <;> simp [nA, nC] at hn
+    have := key k _ hw
+    simp [nC] at this
+  · exact ⟨_, hsp, .always, nC, false, false, none, none, [], false, 0, by simp, Within.root⟩
 
 /-- a product outside the reach of the request exists in `dbKeep`: nothing leads from `c` to `a` -/
 example : ∀ k, ¬ Within dbKeep nC k nA := by
